@@ -68,8 +68,8 @@ def oracle(case, rec):
     box = stoch.limit_steps(model, 600000 if exact else 60000)
     try:
         np.random.seed(su["np_seed"])
-        out = call(key, case, model.solve_stochast, g_arg, case["iters"], exact=exact, full_output=True, parallel=False)
-        raw = call(key + "/raw", case, stoch.run_raw, model, float(grid[-1]), case["iters"], exact, su["np_seed"])
+        out = stoch.simulate("C15", key, case, model.solve_stochast, g_arg, case["iters"], exact=exact, full_output=True, parallel=False)
+        raw = stoch.simulate("C15", key + "/raw", case, stoch.run_raw, model, float(grid[-1]), case["iters"], exact, su["np_seed"])
     except stoch.StepBudget:
         raise Inconclusive("step budget")
     try:
